@@ -3,7 +3,7 @@
 P=$1; W=/tmp/r11-$P; O=$W/out
 cd $W || exit 2
 export CARGO_TARGET_DIR=$W/target
-rm -rf /tmp/r11out-$P; cp -r $O /tmp/r11out-$P; O=/tmp/r11out-$P; git checkout -q -- . ; git clean -fdq -e out -e target -e PROPERTY.json
+rm -rf /tmp/r11out-$P; cp -r $O /tmp/r11out-$P; O=/tmp/r11out-$P; git reset -q --hard HEAD; git clean -fdq -e out -e target -e PROPERTY.json
 git apply $O/patch.diff || { echo "patch does not apply"; exit 3; }
 echo "== [change, no demo] suite:"; cargo test --workspace --no-fail-fast --offline 2>&1 | awk '/^test result/ {p+=$4; f+=$6} END {print "passed",p,"failed",f}'
 git apply $O/demo.diff || { echo "demo does not apply"; exit 3; }
